@@ -32,8 +32,49 @@ type authz struct {
 	r, w bool
 }
 
-func (z *authz) node(n string) bool    { return z.a.NodeRead(n, nil) == acl.Allow }
-func (z *authz) service(n string) bool { return z.a.ServiceRead(n, nil) == acl.Allow }
+// Imported (peered) nodes and services: the IR writes "<name>@<peer>"; the real objects carry the peer
+// in their PeerName field and the authorizer is asked with AuthorizerContext.Peer set (it then
+// decides by service:write-any / node- or service-read-all instead of by name).
+const peerSuffix = "@p1"
+
+var peerNames = []string{"web" + peerSuffix, "db" + peerSuffix}
+var allNames = append(append([]string(nil), names...), peerNames...)
+
+func splitPeer(s string) (name, peer string) {
+	if strings.HasSuffix(s, peerSuffix) {
+		return s[:len(s)-len(peerSuffix)], peerSuffix[1:]
+	}
+	return s, ""
+}
+func peerOf(s string) string { _, p := splitPeer(s); return p }
+func baseOf(s string) string { n, _ := splitPeer(s); return n }
+func joinPeer(name, peer string) string {
+	if peer == "" || name == "" {
+		return name
+	}
+	return name + "@" + peer
+}
+
+// peerCheck: an entry is imported as a whole — the harness only builds peer-consistent entries
+// (a nested name is either empty or carries the peer of its node).
+func peerCheck(node string, nested ...string) string {
+	p := peerOf(node)
+	for _, n := range nested {
+		if n != "" && peerOf(n) != p {
+			panic("harness: peer-inconsistent entry " + node + " / " + n)
+		}
+	}
+	return p
+}
+
+func (z *authz) node(n string) bool {
+	name, peer := splitPeer(n)
+	return z.a.NodeRead(name, &acl.AuthorizerContext{Peer: peer}) == acl.Allow
+}
+func (z *authz) service(n string) bool {
+	name, peer := splitPeer(n)
+	return z.a.ServiceRead(name, &acl.AuthorizerContext{Peer: peer}) == acl.Allow
+}
 func (z *authz) session(n string) bool { return z.a.SessionRead(n, nil) == acl.Allow }
 func (z *authz) key(n string) bool     { return z.a.KeyRead(n, nil) == acl.Allow }
 func (z *authz) ixn(n string) bool     { return z.a.IntentionRead(n, nil) == acl.Allow }
@@ -44,8 +85,8 @@ func (z *authz) svcOpt(n string) bool { return n == "" || z.service(n) }
 
 func newAuthz(a acl.Authorizer, desc string) *authz {
 	z := &authz{a: a, desc: desc}
-	t := make([]string, len(names))
-	for i, n := range names {
+	t := make([]string, len(allNames))
+	for i, n := range allNames {
 		t[i] = hx.EncS(n) + ";" + hx.EncBool(z.node(n)) + hx.EncBool(z.service(n)) + hx.EncBool(z.session(n)) +
 			hx.EncBool(z.key(n)) + hx.EncBool(z.ixn(n)) + hx.EncBool(z.query(n))
 	}
@@ -147,6 +188,8 @@ func main() {
 	checkSwitchCoverage(run)
 	runFilterCases(run)
 	runExhaustive(run)
+	runEndpoints(run)
+	runIsExpired(run)
 	runExpiry(run)
 	run.Finish()
 }
